@@ -200,18 +200,23 @@ pub fn composed_attack(rng: &mut Rng) -> Item {
         let (m, f, _) = *rng.pick(&MEMBERS);
         let t = rng.below(12);
         tags.push(format!("{t}{}", &m[..2]));
+        // unusual but legal identifiers (escapes) in prefixes and namespaces now and then
+        let odd = if rng.chance(1, 6) { *rng.pick(&["\\.", "\\2e ", "\\-", "\\$"]) } else { "" };
+        if !odd.is_empty() {
+            tags.push("odd".into());
+        }
         src.push_str(&match t {
             0 => format!("@forward \"sass:{m}\";\n"),
-            1 => format!("@forward \"sass:{m}\" as p{k}-*;\n"),
+            1 => format!("@forward \"sass:{m}\" as p{odd}{k}-*;\n"),
             2 => format!("@forward \"sass:{m}\" show {f};\n"),
             3 => format!("@forward \"sass:{m}\" hide {f};\n"),
             4 => "@forward \"lib\";\n".to_string(),
-            5 => format!("@forward \"lib\" as l{k}-*;\n"),
+            5 => format!("@forward \"lib\" as l{odd}{k}-*;\n"),
             6 => format!("@use \"sass:{m}\";\n"),
             7 => format!("@use \"sass:{m}\" as *;\n"),
-            8 => format!("@use \"sass:{m}\" as n{k};\n"),
+            8 => format!("@use \"sass:{m}\" as n{odd}{k};\n"),
             9 => "@use \"lib\";\n".to_string(),
-            10 => format!("@use \"lib\" as u{k};\n"),
+            10 => format!("@use \"lib\" as u{odd}{k};\n"),
             _ => "@use \"lib\" as *;\n".to_string(),
         });
     }
